@@ -1065,6 +1065,13 @@ class C05(Prop):
         for k in ("discnum", "totaldiscs"):
             if k in g and g[k].strip().isdigit() and snap["media"][k] != int(g[k]):
                 return {"at": "media." + k, "observed": snap["media"][k], "expected": int(g[k])}
+        # a file that gives the disc number but no total: the total is DERIVED by the reader, and a derived total below the
+        # file's own disc number ("disc 2 of 1") contradicts the one fact the file states (seed C05-w5b)
+        if "discnum" in g and "totaldiscs" not in g and g["discnum"].strip().isdigit():
+            n, tot = snap["media"]["discnum"], snap["media"]["totaldiscs"]
+            if isinstance(n, int) and isinstance(tot, int) and tot < n:
+                return {"at": "media.totaldiscs derived for a file without one", "observed": {"discnum": n, "totaldiscs": tot},
+                        "expected": "a total that is not below the file's disc number"}
         return None
 
     def settled(self, fmt, snap):
